@@ -179,8 +179,11 @@ func r6C03(c *Ctx) {
 		var miss []string
 		for i, need := range []FactM{noWeight, noMatches} {
 			need := need
+			// one combined cut: when the test sits in a helper, each way the helper lets the caller go on
+			// must pass one OR the other
+			both := FOr(need, firstStep)
 			reach, _ := CanReach(Entry(fn), isUp, ReachOpts{CutEdge: func(b *ssa.BasicBlock, k int) bool {
-				return EdgeFactMatches(b, k, need) || EdgeFactMatches(b, k, firstStep)
+				return EdgeFactMatches(b, k, both)
 			}})
 			if reach {
 				miss = append(miss, []string{"traffic == nil", "len(matches) == 0"}[i])
